@@ -353,6 +353,12 @@ class ModelLoader(object):
                                                  stmt.names, stmt.values)
             
         metaclass = metamodel.find_metaclass(stmt.kind)
+        
+        if len(stmt.names) != len(stmt.values):
+            raise ParsingException("%s:%s:%d names but %d values" % (stmt.filename,
+                                                                    stmt.lineno,
+                                                                    len(stmt.names),
+                                                                    len(stmt.values)))
             
         schema_unames = [name.upper() for name in metaclass.attribute_names]
         inst_unames = [name.upper() for name in stmt.names]
